@@ -39,6 +39,7 @@ from dask_expr._expr import (
     ToFrame,
     determine_column_projection,
     plain_column_projection,
+    same_rows_source,
 )
 from dask_expr._util import _tokenize_deterministic, is_scalar
 
@@ -1005,8 +1006,10 @@ class Len(Reduction):
 
         # Pass through Elemwises, unless we just introduced an Index
         if self.frame._is_length_preserving and not isinstance(self.frame, Index):
-            child = max(self.frame.dependencies(), key=lambda expr: expr.npartitions)
-            return Len(child)
+            source = same_rows_source(self.frame)
+            # Operands with other rows (or none, for a scalar) say nothing about
+            # the length of the result
+            return Len(source) if source is not self.frame else None
 
         # Let the child handle it.  They often know best
         if isinstance(self.frame, IO):
@@ -1031,7 +1034,7 @@ class Size(Reduction):
         return df.size
 
     def _simplify_down(self):
-        if is_dataframe_like(self.frame._meta) and len(self.frame.columns) > 1:
+        if is_dataframe_like(self.frame._meta) and len(self.frame.columns) != 1:
             return len(self.frame.columns) * Len(self.frame)
         else:
             return Len(self.frame)
